@@ -435,12 +435,20 @@ func (store *KeyStore) backupHistoricalKeyFile(filename string) error {
 
 // GetPrivateKeyFilePath return path for file with private key with configured folder for store
 func (store *KeyStore) GetPrivateKeyFilePath(filename string) string {
-	return fmt.Sprintf("%s%s%s", store.privateKeyDirectory, string(os.PathSeparator), filename)
+	return confinedPath(store.privateKeyDirectory, filename)
+}
+
+// confinedPath appends filename to the directory so that the result stays inside of the directory
+// whatever the filename is: "..", absolute paths and other tricks are resolved against the directory itself.
+func confinedPath(directory, filename string) string {
+	separator := string(os.PathSeparator)
+	filename = strings.TrimPrefix(filepath.Clean(separator+filename), separator)
+	return fmt.Sprintf("%s%s%s", directory, separator, filename)
 }
 
 // GetPublicKeyFilePath return path for file with public key with configured folder for store
 func (store *KeyStore) GetPublicKeyFilePath(filename string) string {
-	return fmt.Sprintf("%s%s%s", store.publicKeyDirectory, string(os.PathSeparator), filename)
+	return confinedPath(store.publicKeyDirectory, filename)
 }
 
 // use key started with "." (dot) because it's invalid character for clientID that generally stored in cache and
@@ -485,7 +493,7 @@ func (store *KeyStore) invalidateHistoricalPrivateKeyFilenames(path string) {
 func (store *KeyStore) GetHistoricalPrivateKeyFilenames(filename string) ([]string, error) {
 	// getHistoricalFilePaths() expects a path, not a name, but we must return names.
 	// Add private key directory path and then remove it to avoid directory switching.
-	fullPath := filepath.Join(store.privateKeyDirectory, filename)
+	fullPath := filepath.Clean(store.GetPrivateKeyFilePath(filename))
 	paths, err := store.getCachedHistoricalPrivateKeyFilenames(fullPath)
 	if err == nil {
 		return paths, nil
@@ -1071,6 +1079,9 @@ func (store *KeyStore) GetHMACSecretKey(id []byte) ([]byte, error) {
 
 // GenerateHmacKey key for hmac calculation in in folder for private keys
 func (store *KeyStore) GenerateHmacKey(id []byte) error {
+	if !keystore.ValidateID(id) {
+		return keystore.ErrInvalidClientID
+	}
 	log.Debugln("Generate HMAC")
 	key, err := keystore.GenerateSymmetricKey()
 	if err != nil {
@@ -1222,6 +1233,9 @@ func (store *KeyStore) loadKeyAndCache(filename string, keyContext keystore.KeyC
 
 // GenerateClientIDSymmetricKey generate symmetric key for specified client id
 func (store *KeyStore) GenerateClientIDSymmetricKey(id []byte) error {
+	if !keystore.ValidateID(id) {
+		return keystore.ErrInvalidClientID
+	}
 	keyName := getClientIDSymmetricKeyName(id)
 
 	keyContext := keystore.NewClientIDKeyContext(keystore.PurposeStorageClientSymmetricKey, id)
